@@ -32,6 +32,8 @@ var vcNets = [][]string{
 	{"10.0.0.0/24", "10.0.0.1/32"},
 	{"0.0.0.0/0"},
 	{"10.0.0.0/24", "10.0.0.0/24"},
+	{"10.0.0.0/16"},                // same base address as the /24
+	{"10.0.0.0/32", "10.0.0.0/24"}, // the /24's own base address as a host
 }
 
 func vcPorts(i int) []model.EndpointPort {
